@@ -6,6 +6,7 @@ fn main() {
     std::panic::set_hook(Box::new(|_| {}));
     match args.get(1).map(|s| s.as_str()) {
         Some("paych") => paych::main(&args[2..]),
+        Some("multisig") => multisig::main(&args[2..]),
         _ => {
             eprintln!("usage: drive <subsystem> ...");
             std::process::exit(2);
